@@ -8,6 +8,7 @@ import (
 	"go/token"
 	"go/types"
 	"sort"
+	"strconv"
 	"strings"
 
 	"golang.org/x/tools/go/ssa"
@@ -19,9 +20,9 @@ var insertionNames = map[string]bool{"Add": true, "Append": true, "Prepend": tru
 type jsonFn struct {
 	ct      *types.Named
 	fn      *ssa.Function
-	fwd     *Forward            // forwarder to a field's same-named method
-	decodes []*ssa.Call         // json.Unmarshal calls
-	encodes []*ssa.Call         // json.Marshal calls
+	fwd     *Forward    // forwarder to a field's same-named method
+	decodes []*ssa.Call // json.Unmarshal calls
+	encodes []*ssa.Call // json.Marshal calls
 }
 
 func classifyJSON(p *Prog, ct *types.Named, name string) *jsonFn {
@@ -594,6 +595,26 @@ func ruleR9(c *Ctx) *RuleResult {
 				stB, factsB = Violated, "hand-written JSON whose marshalled pieces do not all come from the receiver's own iterator"
 			}
 		}
+		// second chance on the path normal form (helpers the pinned tree does not know are expanded in place there): the
+		// same accepted shapes, recognised on terms instead of on ToJSON's own instructions
+		var tview *jsonTermView
+		if stB != Discharged && to.fwd == nil {
+			tview = jsonWriterTerms(c, ct, to.fn)
+			if tview != nil && tview.ok {
+				stB, factsB = Discharged, tview.facts
+				if tview.handWritten {
+					handWritten = true
+					writerKind = tview.kind
+				} else if writerKind == "" {
+					writerKind = tview.kind
+				}
+				if !kv && !tview.handWritten {
+					if tview.nonNil {
+						stD, factsD = Discharged, "slice handed to json.Marshal is a make()d copy: never nil"
+					}
+				}
+			}
+		}
 		// a container whose insertion path reorders its storage (the heap: Push sifts with Swap) reloads into the same layout —
 		// and hence pops ties in the same order — only from its physical array: any other permutation of the contents
 		// (e.g. the level-sorted Values()) is a different heap after Push(values...)
@@ -605,7 +626,13 @@ func ruleR9(c *Ctx) *RuleResult {
 			r.add(Obligation{Key: "R9d:" + tfk, Rule: "R9d", Clause: clD, Pos: p.FuncPos(to.fn), Status: stD, Facts: factsD})
 		}
 		// R9e
-		if handWritten {
+		if handWritten && tview != nil && tview.ok {
+			if tview.keyIsString {
+				r.add(Obligation{Key: "R9e:" + tfk, Rule: "R9e", Clause: clE, Pos: p.FuncPos(to.fn), Status: Discharged, Facts: "hand-written object with string-typed keys"})
+			} else {
+				r.add(Obligation{Key: "R9e:" + tfk, Rule: "R9e", Clause: clE, Pos: p.FuncPos(to.fn), Status: Violated, Facts: "object key is json.Marshal of the iterator's Key(), whose type " + tview.keyType + " is not a string type"})
+			}
+		} else if handWritten {
 			var bad []string
 			for _, enc := range to.encodes {
 				if ownIteratorCall(p, to.fn, enc.Call.Args[0], "Key") {
@@ -1007,4 +1034,224 @@ func insertionReorders(p *Prog, ct *types.Named) bool {
 		}
 	}
 	return false
+}
+
+// ---- ToJSON on the path normal form ----
+
+type jsonTermView struct {
+	ok          bool
+	facts       string
+	kind        string // array / object / other
+	handWritten bool
+	nonNil      bool
+	keyIsString bool
+	keyType     string
+}
+
+func runesOfConst(t *Term) []rune {
+	if t.Op != "#" {
+		return nil
+	}
+	l := t.Leaf
+	if strings.HasPrefix(l, "\"") {
+		if s, err := strconv.Unquote(l); err == nil {
+			return []rune(s)
+		}
+		return nil
+	}
+	if i := strings.IndexByte(l, ':'); i >= 0 {
+		l = l[:i]
+	}
+	if n, err := strconv.Atoi(l); err == nil && n > 0 && n < 0x110000 {
+		return []rune{rune(n)}
+	}
+	return nil
+}
+
+// jsonWriterTerms recognises, on the normal form of ToJSON, (ii) a fresh map filled in a loop over the receiver's own
+// iterator with (Key(), Value()) and marshalled, (iii) a make+copy of a whole storage field that Values() copies, and (vi)
+// text assembled in a loop over the own iterator where every json.Marshal argument is it.Key()/it.Value().
+func jsonWriterTerms(c *Ctx, ct *types.Named, fn *ssa.Function) *jsonTermView {
+	p := c.p
+	gc := c.GC(fn)
+	if gc.Undecided != "" {
+		return nil
+	}
+	v := &jsonTermView{}
+	ms := methodsOf(p, ct)
+	itf := ms["Iterator"]
+	var itType *types.Named
+	if itf != nil {
+		itType = namedOf(itf.Signature.Results().At(0).Type())
+	}
+	// marshal arguments and written runes
+	margs := map[string]*Term{}
+	runes := map[rune]bool{}
+	var its []*Term
+	visit := func(t *Term) bool {
+		if t.Op == "std" && (t.Leaf == "encoding/json.Marshal" || t.Leaf == "encoding/json.MarshalIndent") && len(t.Args) >= 2 {
+			margs[noEpoch(t.Args[1])] = t.Args[1]
+		}
+		return false
+	}
+	for _, g := range gc.GCs {
+		for _, a := range g.Guards {
+			a.any(visit)
+		}
+		g.Exit.any(visit)
+		for _, ef := range g.Effects {
+			ef.any(visit)
+			if ef.Op == "stddo" && strings.Contains(ef.Leaf, ").Write") {
+				for _, a := range ef.Args[1:] {
+					for _, rn := range runesOfConst(a) {
+						runes[rn] = true
+					}
+				}
+			}
+			if ef.Op == "do" && strings.HasSuffix(ef.Leaf, ").Next") && len(ef.Args) == 1 {
+				its = append(its, ef.Args[0])
+			}
+		}
+	}
+	if len(margs) == 0 {
+		return nil
+	}
+	// the own iterator (at most one)
+	var IT *Term
+	for _, it := range its {
+		if op, ok := ownIteratorTerm(gc, it); !ok || op != "0" {
+			return nil
+		}
+		if IT != nil && IT.String() != it.String() {
+			return nil
+		}
+		IT = it
+	}
+	keyT, valT := "", ""
+	if IT != nil && itType != nil {
+		keyT = iterMethodTerm(c, fn, itType, "Key", IT)
+		valT = iterMethodTerm(c, fn, itType, "Value", IT)
+	}
+	if runes[':'] {
+		// (vi) hand-written
+		v.handWritten = true
+		v.kind = "other"
+		if runes['{'] && runes['}'] {
+			v.kind = "object"
+		} else if runes['['] && runes[']'] {
+			v.kind = "array"
+		}
+		if IT == nil {
+			return v
+		}
+		for s := range margs {
+			if s != keyT && s != valT {
+				return v
+			}
+		}
+		if km := methodsOf(p, itType)["Key"]; km != nil {
+			kt := km.Signature.Results().At(0).Type()
+			v.keyType = kt.String()
+			if b, ok := types.Unalias(kt).Underlying().(*types.Basic); ok && b.Info()&types.IsString != 0 {
+				v.keyIsString = true
+			}
+		}
+		v.ok = true
+		v.facts = "(vi) text assembled in a loop over the receiver's own iterator (every json.Marshal argument, also inside helpers, is it.Key()/it.Value())"
+		return v
+	}
+	if len(margs) != 1 {
+		return nil
+	}
+	var arg *Term
+	for _, a := range margs {
+		arg = a
+	}
+	// through the address of a local cell
+	cell := ""
+	if arg.Op == "new" {
+		cell = arg.String()
+		var held *Term
+		for _, g := range gc.GCs {
+			for _, ef := range g.Effects {
+				if isStore(ef) && ef.Args[0].String() == cell {
+					if held != nil && noEpoch(held) != noEpoch(ef.Args[1]) {
+						return nil
+					}
+					held = ef.Args[1]
+				}
+			}
+		}
+		if held == nil {
+			return nil
+		}
+		arg = held
+	}
+	switch arg.Op {
+	case "makemap":
+		// (ii) every write into the map is m[it.Key()] = it.Value() of the own iterator, and nothing else writes it
+		v.kind = "object"
+		if IT == nil {
+			return v
+		}
+		n := 0
+		for _, g := range gc.GCs {
+			for _, ef := range g.Effects {
+				if ef.Op != "mapset" {
+					continue
+				}
+				n++
+				tgt := noEpoch(ef.Args[0])
+				if tgt != noEpoch(arg) && tgt != "(load "+cell+")" {
+					return v
+				}
+				if noEpoch(ef.Args[1]) != keyT || noEpoch(ef.Args[2]) != valT {
+					return v
+				}
+			}
+		}
+		if n == 0 {
+			return v
+		}
+		v.ok, v.facts = true, "(ii) fresh map filled from the receiver's own iterator (Key(), Value()), also through a helper"
+		return v
+	case "makeslice":
+		// (iii) make([]T, len(F)) + copy(_, F) of a whole storage field F that Values() is a copy of
+		v.kind = "array"
+		v.nonNil = true
+		if len(arg.Args) < 1 || arg.Args[0].Op != "len" {
+			return v
+		}
+		F := arg.Args[0].Args[0]
+		if !(F.Op == "load" && F.Args[0].Op == "fa" && F.Args[0].Args[0].String() == "p:0") {
+			return v
+		}
+		copied := false
+		for _, g := range gc.GCs {
+			for _, ef := range g.Effects {
+				if ef.Op == "builtin" && ef.Leaf == "copy" && len(ef.Args) == 2 && noEpoch(ef.Args[0]) == noEpoch(arg) && noEpoch(ef.Args[1]) == noEpoch(F) {
+					copied = true
+				} else if ef.Op == "builtin" || isStore(ef) || ef.Op == "do" {
+					return v
+				}
+			}
+		}
+		if !copied {
+			return v
+		}
+		fname := F.Args[0].Leaf
+		st := ct.Underlying().(*types.Struct)
+		fidx := -1
+		for i := 0; i < st.NumFields(); i++ {
+			if fieldN(ct, i) == fname {
+				fidx = i
+			}
+		}
+		if fidx < 0 || len(fieldsReadBy(ms["Values"], fidx)) != 0 || !readsField(ms["Values"], fidx) {
+			return v
+		}
+		v.ok, v.facts = true, "(iii) json.Marshal(make+copy of recv."+fname+"), and Values() reads only that field"
+		return v
+	}
+	return nil
 }
